@@ -15,7 +15,7 @@ def check(ctx, rep):
         "the exception stays retrievable: the registry is never overwritten or cleared after a start. R06.5 what a "
         "critical nested scheduler re-raises is the exception of a *critical* member only (a contained failure never "
         "changes which exception bubbles up). R06.6 the feedback/diagnostic code reached from the run cannot raise "
-        "on a job's outcome (no first/last subscript of a possibly empty sequence, no raise). R06.7 (= R02.6) raised_exception(), which the run reads to tell a failure, is the exception of the job's own task for atomic jobs and nested schedulers alike. R06.8 = R05.9. R06.9 (= R14.3) the wrapper neither swallows nor replaces a job's exception: it stays retrievable. R06.10 (= R05.1) the run aborts exactly when some job of the batch raised and is critical (exists-fold over the done set): a tolerated failure completing in the same instant does not mask a critical one, nor the reverse. R06.11 (= R09.8) the window closes exactly when the last member that does not run forever has completed - returned or raised, counted at its completion and only then: no job starts after the end of the run, none is held back before it.")
+        "on a job's outcome (no first/last subscript of a possibly empty sequence, no raise). R06.7 (= R02.6) raised_exception(), which the run reads to tell a failure, is the exception of the job's own task for atomic jobs and nested schedulers alike. R06.8 = R05.9. R06.9 (= R14.3) the wrapper neither swallows nor replaces a job's exception: it stays retrievable. R06.10 (= R05.1) the run aborts exactly when some job of the batch raised and is critical (exists-fold over the done set): a tolerated failure completing in the same instant does not mask a critical one, nor the reverse. R06.11 (= R09.8) the window closes exactly when the last member that does not run forever has completed - returned or raised, counted at its completion and only then: no job starts after the end of the run, none is held back before it. R06.12 failed_time_out(), failed_critical() and why() read what the run recorded about itself, never what a job returned or raised.")
     rep.declined = ["equality of the timed traces of two runs (relational over executions)"]
     rep.trusted = ["T1", "T5", "cancelling or gathering an already finished task changes nothing"]
     taint.outcome_reads_masked(ctx, rep, "R06.1")
@@ -31,3 +31,4 @@ def check(ctx, rep):
     predicates.identity_flow(ctx, rep, "R06.9")
     runrules.detection_exact(ctx, rep, "R06.10")
     common.window_gate(ctx, rep, "R06.11", "endofrun")
+    taint.diagnosis_reads_flags_only(ctx, rep, "R06.12")
